@@ -185,7 +185,11 @@ func genFatHistory(r *core.Rng, tier string, idx int) *core.Trace {
 	dpool := r.Intn(2)
 	names := fatNamePools[pool]
 	dirs := fatDirPools[dpool]
-	held := r.Chance(25)
+	held := r.Chance(35)
+	heldW := 10
+	if held {
+		heldW = 24 // histories with handles that stay open across other operations on the same directory
+	}
 	nops := 1 + r.Intn(40)
 	if tier == "thorough" {
 		nops = 1 + r.Intn(160)
@@ -222,7 +226,7 @@ func genFatHistory(r *core.Rng, tier string, idx int) *core.Trace {
 		}
 	}
 	for i := 0; i < nops; i++ {
-		switch r.PickW(10, 12, 22, 8, 6, 8, 9, 5, 4, 3, 3, 10) {
+		switch r.PickW(10, 12, 22, 8, 6, 8, 9, 5, 4, 3, 3, heldW) {
 		case 0:
 			d := dirPaths[1+r.Intn(3)]
 			t.Ops = append(t.Ops, core.Op{K: "mkdir", P: "/" + d})
